@@ -1,4 +1,24 @@
 import Anysystem.Proofs.R2Defs
+import Anysystem.Proofs.R2Uniq
+import Anysystem.Proofs.R2Crash
+/-!
+# R2: the mirrored model checker refines the reference semantics
+
+The relation used by the theorems is `SimW'` / `Sim'` (`R2Sim.lean`): the relation `SimW` of
+`R2Defs.lean` plus sortedness of the node and process maps, with `pending_timers` required to mirror
+the pending timer events only on nodes that are alive.  The first formulation (`SimW` itself) turned
+out to be too weak for five of the statements (one-step soundness and completeness, the path
+theorem, `send_local_message` and `crash_node`); the kernel-checked counterexamples are kept in
+`Anysystem/Proofs/R2Counter.lean`:
+
+* `WFTopo` does not say that the node map and the per-node process maps are sorted by name;
+  `amInsert natLt` on an unsorted list may insert a second entry for a present key, after which
+  `procsOf` has one process twice and cannot equal the reference `procs`;
+* `SimW.pend` also speaks about crashed nodes, but `crash_node` leaves `pending_timers` of the
+  crashed processes as they are while the reference crash removes their timers.
+
+`Sim.toSim'` turns `Sim` into `Sim'` on sorted systems.
+-/
 namespace Anysystem
 
 variable {σ : Type}
@@ -8,67 +28,98 @@ variable {σ : Type}
 /-- a system with nothing pending is related to the reference state with the same processes -/
 theorem Sim.init (s : McSys σ) (ht : WFTopo s) (he : s.events = {})
     (hp : ∀ nd ∈ s.nodes, ∀ pe ∈ nd.2.procs, pe.2.pending = []) (hc : ∀ nd ∈ s.nodes, nd.2.crashed = false) :
-    Sim s { procs := procsOf s, net := s.net, trace := s.trace } := sorry
-
-/-- `send_local_message` refines the reference `sendLocal` (when the handler does not override a pending timer) -/
-theorem Sim.sendLocal (h : Handler σ) {s s' : McSys σ} {r : RState σ} (hs : Sim s r) (node p : Nat) (m : Msg)
-    (hnode : amGet? p s.net.procLoc = some node)
-    (hok : s.sendLocal {} h node p m = .ok s')
-    (hof : ∀ e, amGet? p r.procs = some e →
-      RState.overrideFreeActs { r with trace := r.trace ++ [LogE.lrecv m p] } p (h p e.st (.loc m)).2 = true) :
-    ∃ r', r.sendLocal h p m = some r' ∧ Sim s' r' := sorry
-
-/-- `crash_node` refines the reference crash, for some order of the recorded losses -/
-theorem Sim.crashNode {s s' : McSys σ} {r : RState σ} (hs : Sim s r) (node : Nat)
-    (hok : s.crashNode {} node = .ok s') :
-    ∃ order, order.Perm (r.lostOnCrash node) ∧ Sim s' (r.crashNode node order) := sorry
+    Sim s { procs := procsOf s, net := s.net, trace := s.trace } := by
+  refine ⟨{}, ⟨ht, by rw [he]; exact Rep.empty, rfl, rfl, rfl, ?_, rfl, rfl, ?_, List.Pairwise.nil, ?_, ?_⟩⟩
+  · intro nd hnd
+    simp [hc nd hnd]
+  · intro nd hnd pe hpe name
+    simp [hp nd hnd pe hpe, RState.timerPending]
+  · intro x hx; simp at hx
+  · intro x hx; simp at hx
 
 /-- network settings and the ordering mode are not constrained by the relation beyond equality -/
 theorem Sim.setNet {s : McSys σ} {r : RState σ} (hs : Sim s r) (n : McNet) (hloc : n.procLoc = s.net.procLoc) :
-    Sim { s with net := n } { r with net := n } := sorry
+    Sim { s with net := n } { r with net := n } := by
+  obtain ⟨a, hw⟩ := hs
+  have hc : ∀ q, ({ r with net := n } : RState σ).procCrashed q = r.procCrashed q :=
+    procCrashed_congr (by simp only [hloc, hw.net]) rfl
+  refine ⟨a, ⟨hw.topo.congr rfl hloc, hw.rep, hw.flights, hw.timers, hw.procs, hw.crashed, rfl, hw.trace,
+    hw.pend, hw.uniq, hw.tm, ?_⟩⟩
+  intro x hx
+  have := hw.clean x hx
+  obtain ⟨id, ev⟩ := x
+  cases ev with
+  | msg m src dst o => simp only [hc]; exact this
+  | timer p nm d => simp only [hc]; exact this
+  | _ => trivial
 
-theorem Sim.setMode {s : McSys σ} {r : RState σ} (hs : Sim s r) (m : Mode) : Sim { s with mode := m } r := sorry
+theorem Sim.setMode {s : McSys σ} {r : RState σ} (hs : Sim s r) (m : Mode) : Sim { s with mode := m } r := by
+  obtain ⟨a, hw⟩ := hs
+  exact ⟨a, ⟨hw.topo.congr rfl rfl, hw.rep, hw.flights, hw.timers, hw.procs, hw.crashed, hw.net, hw.trace,
+    hw.pend, hw.uniq, hw.tm, hw.clean⟩⟩
 
 /-! ## one step: soundness -/
 
-/-- (R2, soundness) every alternative the checker applies to an offered event is a step of the
-    reference semantics that is enabled in the reduced sense; when the handler does not override a
-    pending timer the successor states are related again -/
-theorem applyAlt_refines (h : Handler σ) {s s' : McSys σ} {r : RState σ} (hs : Sim s r)
-    {ids : List Nat} {id : Nat} {alts : List Alt} {alt : Alt}
-    (hav : s.available = .ok ids) (hid : id ∈ ids) (halts : s.alternatives id = .ok alts) (halt : alt ∈ alts)
-    (hok : s.applyAlt {} h alt = .ok s') :
-    ∃ l, r.enabledRed s.mode l = true ∧ (r.overrideFree h l = true → ∃ r', r.step h l = some r' ∧ Sim s' r') := sorry
-
 /-- the ordering mode is never changed by a step -/
 theorem applyAlt_mode (h : Handler σ) {s s' : McSys σ} {alt : Alt} (hok : s.applyAlt {} h alt = .ok s') :
-    s'.mode = s.mode := sorry
-
-/-- (C02, partial: `OverrideFree`) every path of the checker is an enabled run of the reference
-    semantics ending in the related state -/
-theorem mc_path_sound_partial (h : Handler σ) {s₀ s : McSys σ} {r₀ : RState σ} {alts : List Alt}
-    (hs : Sim s₀ r₀) (hp : McPath h s₀ alts s) :
-    ∃ ls, ls.length = alts.length ∧
-      (overrideFreeRun h r₀ ls = true → ∃ r, refRun h s₀.mode r₀ ls = some r ∧ Sim s r) := sorry
+    s'.mode = s.mode := applyAlt_mode_gen h hok
 
 /-! ## one step: completeness -/
-
-/-- (R2, completeness) every reduced-enabled step of the reference semantics is an alternative of an
-    offered event, the checker does not panic on it, and the successors are related -/
-theorem alternatives_complete (h : Handler σ) {s : McSys σ} {r r' : RState σ} (hs : Sim s r)
-    (hk : SendsKnown h s) {l : Label} (hen : r.enabledRed s.mode l = true) (hstep : r.step h l = some r')
-    (hof : r.overrideFree h l = true) :
-    ∃ ids id alts alt s', s.available = .ok ids ∧ id ∈ ids ∧ s.alternatives id = .ok alts ∧ alt ∈ alts ∧
-      s.applyAlt {} h alt = .ok s' ∧ Sim s' r' := sorry
 
 /-- `successors` lists exactly the results of the alternatives of the offered events -/
 theorem mem_successors_iff (h : Handler σ) {s : McSys σ} {cs : List (McSys σ)}
     (hsucc : s.successors {} h = .ok cs) (c : McSys σ) :
     c ∈ cs ↔ ∃ ids id alts alt, s.available = .ok ids ∧ id ∈ ids ∧ s.alternatives id = .ok alts ∧ alt ∈ alts ∧
-      s.applyAlt {} h alt = .ok c := sorry
+      s.applyAlt {} h alt = .ok c := by
+  simp only [McSys.successors] at hsucc
+  cases hav : s.available with
+  | error e => simp [hav] at hsucc
+  | ok ids =>
+    simp only [hav] at hsucc
+    rw [goIds_spec ids hsucc c]
+    simp only [List.not_mem_nil, false_or]
+    constructor
+    · rintro ⟨id, hid, alts, halts, alt, halt, happ⟩
+      exact ⟨ids, id, alts, alt, rfl, hid, halts, halt, happ⟩
+    · rintro ⟨ids', id, alts, alt, hids, hid, halts, halt, happ⟩
+      simp only [Except.ok.injEq] at hids
+      subst hids
+      exact ⟨id, hid, alts, halts, alt, halt, happ⟩
 
 /-- the reference semantics keeps the timer contract: at most one pending timer per (process, name) -/
 theorem RState.step_timersUnique (h : Handler σ) {r r' : RState σ} {l : Label}
-    (hu : r.timersUnique) (hstep : r.step h l = some r') : r'.timersUnique := sorry
+    (hu : r.timersUnique) (hstep : r.step h l = some r') : r'.timersUnique :=
+  step_timersUnique_aux h hu hstep
+
+/-! ## The corrected variants (relation `Sim'`, see `R2Sim.lean`) -/
+
+/-- `Sim.init` for the corrected relation: additionally the maps are sorted -/
+theorem Sim.init' (s : McSys σ) (ht : WFTopo s) (hsrt : SortedTopo s) (he : s.events = {})
+    (hp : ∀ nd ∈ s.nodes, ∀ pe ∈ nd.2.procs, pe.2.pending = []) (hc : ∀ nd ∈ s.nodes, nd.2.crashed = false) :
+    Sim' s { procs := procsOf s, net := s.net, trace := s.trace } :=
+  Sim'.init s ht hsrt he hp hc
+
+theorem Sim.sendLocal' (h : Handler σ) {s s' : McSys σ} {r : RState σ} (hs : Sim' s r) (node p : Nat) (m : Msg)
+    (hnode : amGet? p s.net.procLoc = some node)
+    (hok : s.sendLocal {} h node p m = .ok s')
+    (hof : ∀ e, amGet? p r.procs = some e →
+      RState.overrideFreeActs { r with trace := r.trace ++ [LogE.lrecv m p] } p (h p e.st (.loc m)).2 = true) :
+    ∃ r', r.sendLocal h p m = some r' ∧ Sim' s' r' :=
+  Sim'.sendLocal h hs node p m hnode hok hof
+
+theorem Sim.crashNode' {s s' : McSys σ} {r : RState σ} (hs : Sim' s r) (node : Nat)
+    (hok : s.crashNode {} node = .ok s') :
+    ∃ order, order.Perm (r.lostOnCrash node) ∧ Sim' s' (r.crashNode node order) :=
+  Sim'.crashNode hs node hok
+
+theorem Sim.setNet' {s : McSys σ} {r : RState σ} (hs : Sim' s r) (n : McNet) (hloc : n.procLoc = s.net.procLoc) :
+    Sim' { s with net := n } { r with net := n } :=
+  Sim'.setNet hs n hloc
+
+theorem Sim.setMode' {s : McSys σ} {r : RState σ} (hs : Sim' s r) (m : Mode) : Sim' { s with mode := m } r :=
+  Sim'.setMode hs m
+
+-- `applyAlt_refines'`, `alternatives_complete'` (R2Sound.lean, R2Complete.lean) and
+-- `mc_path_sound_partial'` (R2Callbacks.lean) are the corrected step and path theorems.
 
 end Anysystem
